@@ -92,3 +92,101 @@ Print Assumptions C20_sweep_lift.
 Theorem C20_example_berlin_2025 : dst_sweep_each ex_berlin 2025 = true.
 Proof. exact berlin_sweep. Qed.
 Print Assumptions C20_example_berlin_2025.
+
+
+(* ------------------------------------------------------------------------------------------------------------
+   The tie to the file as it is today: coq/gen/GenDst.v is written by tools/gen_dst.py from helpers/dst_param.py on
+   every run (statement by statement, fail closed), GenDstEq.v proves that it computes the model above.  [wworld z
+   year now]: the generated code consults the table cut [window z year] (as the model does) and a clock [now];
+   [clock_in z year now]: SystemDateTime.now().year = year on that table (from the full table: clock_in_full);
+   [gen_reachable W g]: g are the module globals after any sequence of calls of the GENERATED check_dst_handling. *)
+From EAS Require Import GenRtDst GenDstEq.
+From EASGen Require Import GenDst.
+
+Theorem C20_generated_recognised : gen_dst_status_v = GenDstOk.
+Proof. exact gen_dst_recognised. Qed.
+Print Assumptions C20_generated_recognised.
+
+Theorem C20_generated_find_time : forall W rv,
+  match date_items (w_tz W) (wyear W) (hour_seq rv) (month_seq rv) with
+  | None => g_find_time W rv = OStuck
+  | Some _ => exists r, find_time (w_tz W) (wyear W) rv = Ok r /\ g_find_time W rv = ORet (ft_conv r)
+  end.
+Proof. exact gen_find_time_spec. Qed.
+Print Assumptions C20_generated_find_time.
+
+Theorem C20_generated_setup_is_model : forall z year now g,
+  clock_in z year now -> g_setup (wworld z year now) g <> OStuck ->
+  setup z year g = setup_conv (g_setup (wworld z year now) g).
+Proof. exact gen_setup_is_model. Qed.
+Print Assumptions C20_generated_setup_is_model.
+
+Theorem C20_generated_check_is_model : forall z year now g t f b,
+  clock_in z year now -> g_check_dst_handling (wworld z year now) g t f b <> OStuck ->
+  check_dst_handling z year g t f b = check_conv (g_check_dst_handling (wworld z year now) g t f b).
+Proof. exact gen_check_is_model. Qed.
+Print Assumptions C20_generated_check_is_model.
+
+Theorem C20_generated_check_any_table : forall W g t f b,
+  g_check_dst_handling W g t f b <> OStuck ->
+  check_on (wft W) g t f b = check_conv (g_check_dst_handling W g t f b).
+Proof. exact gen_check_agrees. Qed.
+Print Assumptions C20_generated_check_any_table.
+
+Theorem C20_generated_both_given_verbatim : forall W g t f b,
+  g_check_dst_handling W g t (Some f) (Some b) = ORet (g, (Some f, Some b)).
+Proof. exact gen_both_given_verbatim. Qed.
+Print Assumptions C20_generated_both_given_verbatim.
+
+Theorem C20_generated_accept_sound : forall z year now,
+  clock_in z year now -> dst_sweep z year = true ->
+  forall g tod g' r, 0 <= tod < DAY -> gen_reachable (wworld z year now) g ->
+  g_check_dst_handling (wworld z year now) g tod None None = ORet (g', r) ->
+  forall day, in_year year day -> exists i, candidates z (day * DAY + tod) = [i].
+Proof. exact gen_accept_sound. Qed.
+Print Assumptions C20_generated_accept_sound.
+
+Theorem C20_generated_accept_sound_one_policy : forall z year now,
+  clock_in z year now -> dst_sweep_each z year = true ->
+  forall g tod g' r, 0 <= tod < DAY -> gen_reachable (wworld z year now) g ->
+  (forall sf, g_check_dst_handling (wworld z year now) g tod (Some sf) None = ORet (g', r) ->
+     forall day, in_year year day -> (List.length (candidates z (day * DAY + tod)) <= 1)%nat) /\
+  (forall sb, g_check_dst_handling (wworld z year now) g tod None (Some sb) = ORet (g', r) ->
+     forall day, in_year year day -> candidates z (day * DAY + tod) <> []).
+Proof. exact gen_accept_sound_one_policy. Qed.
+Print Assumptions C20_generated_accept_sound_one_policy.
+
+Theorem C20_generated_affected_rejected : forall z year now,
+  clock_in z year now -> dst_sweep z year = true ->
+  forall tod day, 0 <= tod < DAY -> in_year year day ->
+  (forall i, candidates z (day * DAY + tod) <> [i]) ->
+  forall g, gen_reachable (wworld z year now) g ->
+  forall g' r, g_check_dst_handling (wworld z year now) g tod None None <> ORet (g', r).
+Proof. exact gen_affected_rejected. Qed.
+Print Assumptions C20_generated_affected_rejected.
+
+Theorem C20_generated_accept_defaults : forall z year now g tod g' r,
+  clock_in z year now -> gen_reachable (wworld z year now) g ->
+  g_check_dst_handling (wworld z year now) g tod None None = ORet (g', r) -> r = (Some SkAfter, Some RpEarlier).
+Proof. exact gen_accept_defaults. Qed.
+Print Assumptions C20_generated_accept_defaults.
+
+Theorem C20_generated_reject_is_value_error : forall z year now g t f b g' e,
+  clock_in z year now -> gen_reachable (wworld z year now) g ->
+  g_check_dst_handling (wworld z year now) g t f b = OExc (g', e) -> e = XValue.
+Proof. exact gen_reject_is_value_error. Qed.
+Print Assumptions C20_generated_reject_is_value_error.
+
+Theorem C20_generated_clock_from_full_table : forall z year now,
+  spaced_list (tz_trans z) = true ->
+  days_from_civil (year - 1) 1 1 * DAY <= now < days_from_civil (year + 2) 1 1 * DAY ->
+  local_year (to_local z now) = year -> clock_in z year now.
+Proof. exact clock_in_full. Qed.
+Print Assumptions C20_generated_clock_from_full_table.
+
+Theorem C20_generated_example_berlin_2025 :
+  clock_in ex_berlin 2025 ex_now /\
+  g_setup (wworld ex_berlin 2025 ex_now) g_globals0
+  = ORet ({| g_fwd := Some (RDate (2 * HOUR) (3 * HOUR - 1)); g_bwd := Some (RDate (2 * HOUR) (3 * HOUR - 1)) |}, tt).
+Proof. exact (conj berlin_clock berlin_gen_setup). Qed.
+Print Assumptions C20_generated_example_berlin_2025.
